@@ -9,6 +9,7 @@ import TFV.Model.NpQ
 import TFV.Model.SelfConf
 import TFV.Lemmas.Metrics
 import TFV.Generated.Src.SelfCGA_get_new_proba
+import TFV.Generated.Src.SelfCGA_choice_operators
 
 namespace TFV.Properties.Src.SelfCGAProba
 open TFV.NpQ TFV.SelfConf TFV.Generated.Src
@@ -50,6 +51,24 @@ theorem C14_src_get_new_proba_rejects (K iters : Rat) (p : List Rat) (w : Nat) (
   unfold SelfCGA_get_new_proba
   have : ¬ w < p.length := by omega
   simp [addAt, this]
+
+/-- `_choice_operators`: the next operators are the keys at the positions the sampler draws with the table's VALUES as weights,
+    `pop_size` of them, with replacement (a sampler that stays in range, as `random_weighted_sample` provably does) -/
+theorem C14_src_choice_operators (sampler : List Rat → Nat → Bool → List Nat) (pop : Nat) (p : List Rat)
+    (hs : ∀ i ∈ sampler p pop true, i < p.length) :
+    SelfCGA_choice_operators sampler pop p = some (sampler p pop true) := by
+  unfold SelfCGA_choice_operators
+  have hall : (sampler p pop true).all (fun i => decide (i < (List.range p.length).length)) = true := by
+    rw [List.all_eq_true]
+    intro i hi
+    simpa using hs i hi
+  have hmap : (sampler p pop true).map (fun i => (List.range p.length).getD i 0) = sampler p pop true := by
+    conv => rhs; rw [← List.map_id (sampler p pop true)]
+    apply List.map_congr_left
+    intro i hi
+    have := hs i hi
+    simp [List.getD_eq_getElem?_getD, this]
+  simp only [gatherN, hall, if_true, bind, Option.bind, pure, hmap]
 
 /-- non-vacuity: a three-entry table whose second key wins -/
 example : (1 : Nat) < ([1/2, 1/4, 1/4] : List Rat).length := by decide
